@@ -441,7 +441,7 @@ theorem multiRay_eq_map_ray (rays : List (MultiRayIn ℝ))
     refine ⟨by first | rfl | trivial, ?_⟩
     have hk' : k < r.geoms.length := by simpa using hk
     cases hc : (r.geoms[k]'hk').culled
-    · left; simp [hc]
+    · left; simp
     · right; exact hsound r hr _ (List.getElem_mem hk') hc
   rw [this]
 
